@@ -369,16 +369,19 @@ func randomOtherFlags(r *gen.R, keep ...slog.Flags) []string {
 // being formatted; the application recovers, as a service with a recover middleware does. Nothing of that record may
 // show in any later one.
 //
-// After that, the same logger issues a record whose LAST attribute (in key order) is a top-level attribute named
+// Every other call issues, instead, a record whose LAST attribute (in key order) is a top-level attribute named
 // "time" that holds a time.Time - the library's documented special case, printed with the timestamp layout. Nothing of
 // that record may show in a later one either.
 func doomedRecord(f Format, w io.Writer) {
 	lg := newRoot("doomed", f, w, slog.AlwaysLevel)
-	func() {
-		defer func() { _ = recover() }()
-		lg.Info("doomed", "aa-doomed", 1, "req-doomed", slog.NewGroupedAttrEasy("inner", "user", &panicOnce{}), "zz-doomed", 2)
-	}()
-	lg.Info("a record with a top-level time attribute", "a", 1, "time", time.Unix(1700000000, 0))
+	if (currentCase/3)%2 == 0 {
+		// every other time: a record whose LAST attribute (in key order) is a top-level attribute named "time" that holds a
+		// time.Time - the library's documented special case, printed with the timestamp layout
+		lg.Info("a record with a top-level time attribute", "a", 1, "time", time.Unix(1700000000, 0))
+		return
+	}
+	defer func() { _ = recover() }()
+	lg.Info("doomed", "aa-doomed", 1, "req-doomed", slog.NewGroupedAttrEasy("inner", "user", &panicOnce{}), "zz-doomed", 2)
 }
 
 // panicOnce panics the first time it is formatted and prints normally afterwards.
